@@ -47,7 +47,7 @@ def gen_case(rng):
     rc = [t for t in tasks if t["kind"] == "run_command"]
     if rc and rng.random() < 0.15:
         blocker = {"task": rng.choice(rc)["id"], "kind": rng.choice(["file", "dangling-symlink"])}
-    return {"tasks": gen.dump(tasks), "scripts": scripts, "history": hist, "outer_env": outer_env, "blocker": blocker}
+    return {"tasks": gen.dump(tasks), "scripts": scripts, "history": hist, "outer_env": outer_env, "blocker": blocker, "hostile": realrun.hostile_choice(rng)}
 
 
 def share_names(rng, tasks):
@@ -95,7 +95,7 @@ def eval_case(case):
 
     with common.Scratch("cv07") as sc:
         tasks = [gen.Task(t) for t in case["tasks"]]
-        pr = realrun.Project(sc.root, tasks, case["scripts"])
+        pr = realrun.Project(sc.root, tasks, case["scripts"], hostile=case.get("hostile"))
         tb = pr.tb
         rootreal = os.path.realpath(pr.root)
         blocked = None
@@ -157,9 +157,10 @@ def eval_case(case):
                     out["violations"].append({"key": "C07:wrong-COND_NAME", "msg": "%s got COND_NAME=%r" % (tid, env.get("COND_NAME")), "witness": W})
                     continue
                 co = env.get("COND_OUT", "")
-                base = os.path.join(rootreal, "cond-out", t["pkg"], t["name"] + ".task")
+                base = os.path.join(os.path.realpath(os.path.join(pr.root, "cond-out", t["pkg"])), t["name"] + ".task")
                 pat = re.escape(base) + (r"\.[1-9][0-9]*" if t["kind"] == "run_experiment" else "") + r"\Z"
-                if not e.get("out_isabs") or not e.get("out_isdir") or not re.match(pat, os.path.normpath(os.path.join(os.path.realpath(os.path.dirname(co)), os.path.basename(co)))):
+                lexical_ok = os.path.normpath(co).startswith(os.path.join(pr.root, "cond-out") + os.sep) or os.path.normpath(co).startswith(os.path.join(rootreal, "cond-out") + os.sep)
+                if not e.get("out_isabs") or not e.get("out_isdir") or not lexical_ok or not re.match(pat, os.path.normpath(os.path.join(os.path.realpath(os.path.dirname(co)), os.path.basename(co)))):
                     out["violations"].append({"key": "C07:wrong-COND_OUT", "msg": "%s got COND_OUT=%r (isabs=%s isdir=%s), expected %s[.<version>] to exist" % (tid, co, e.get("out_isabs"), e.get("out_isdir"), base), "witness": W})
                     continue
                 # COND_DEPS
